@@ -108,16 +108,15 @@ def shapes? (l : Line) (k : String) : Option (List (List Nat)) := do
   let s ← l.get? k
   (s.splitOn ";").mapM parseNatList
 
-/-- `shape m=<shapes> d=<shapes> ndim=N curved=0|1` → `ok shape=… doc=…` / `err` -/
+/-- `shape m=<shapes> d=<shapes> ndim=N` → `ok shape=… doc=…` / `err` -/
 def doShape (l : Line) : Option String := do
   let m ← shapes? l "m"
   let d ← shapes? l "d"
   let ndim ← l.nat? "ndim"
-  let curved ← l.bool? "curved"
   let doc := match docShape m d ndim with
     | some sh => showNatList sh
     | none => "none"
-  match evalShape m d ndim curved with
+  match evalShape m d ndim with
   | some sh => some s!"ok shape={showNatList sh} doc={doc}"
   | none => some s!"err doc={doc}"
 
@@ -138,8 +137,8 @@ def doGetitem2 (l : Line) : Option String := do
   let (g', s) := par2Getitem g
   some s!"ok before={showPos2 g} after={showPos2 g'} slice={showPos2 s}"
 
-/-- `getitem3 how=ctor|frommatrix (p=…|p=none) aliased=0|1 dflt=… t=… n=K` → positions of
-the receiver before, and after each of `n` successive `__getitem__` calls on the receiver:
+/-- `getitem3 how=ctor|frommatrix (p=…|p=none) dflt=… t=… n=K` → positions of the receiver
+before, and after each of `n` successive `__getitem__` calls on the receiver:
 `after_k`, `slice_k`. -/
 def doGetitem3 (l : Line) : Option String := do
   let t ← v3? l "t"
@@ -148,11 +147,10 @@ def doGetitem3 (l : Line) : Option String := do
   let g ← match l.get? "how" with
     | some "ctor" =>
       match l.get? "p" with
-      | some "none" => some (par3Ctor dflt none false t)
+      | some "none" => some (par3Ctor dflt none t)
       | _ => do
         let p ← v3? l "p"
-        let al ← l.bool? "aliased"
-        some (par3Ctor dflt (some p) al t)
+        some (par3Ctor dflt (some p) t)
     | some "frommatrix" =>
       match l.rats? "m" with
       | some [a, b, c, d, e, f, g, h, i] => some (par3FromMatrix ⟨a, b, c, d, e, f, g, h, i⟩ t)
